@@ -99,7 +99,7 @@ class C09(Check):
                 yield (i, "never", 0, None, alloc)
                 for kind in (1, 2, 0):
                     yield (i, "every", kind, None, alloc)
-            if n is None:
+            if n is None or pr.get("nopoints"):
                 continue
             step = 1 if (th or pr["light"]) else 3
             for p in range(0, n, step):
@@ -119,7 +119,7 @@ class C09(Check):
         gc = {"mode": mode, "kind": kind}
         if mode == "at":
             gc["points"] = [[p, kind]]
-        return [{"files": pr["files"], "entry": "/v/main.lay", "gc": gc, "alloc": alloc, "final_collect": True, "stats": True, "step_limit": 500000}], None
+        return [{"files": pr["files"], "entry": "/v/main.lay", "gc": gc, "alloc": alloc, "final_collect": True, "stats": True, "step_limit": 3000000 if pr.get("nopoints") else 500000}], None
 
     def judge(self, spec, ctx, rs):
         r = rs[0]
@@ -184,8 +184,42 @@ def name_programs():
     return out
 
 
+LONG_SIZES = [255, 256, 257, 1023, 1024, 1025, 1026, 4096, 65535, 65536, 65537]
+LONG_PRODUCERS = {
+    "double_slice": "A(%d)",
+    "halves": "A(%d - (%d / 2).floor()) + A((%d / 2).floor())",
+    "interp": "'${A(%d - 1)}x'",
+    "split": "(A(%d) + ',' + 'z').split(',').first()",
+    "inner_slice": "('q' + A(%d) + 'q').slice(1, %d + 1)",
+}
+
+
+def long_programs():
+    """contents whose length crosses the sizes at which an implementation may change strategy (255/256, 1024, 65535/65536)"""
+    out = []
+    pre = "fn A(n) { if n == 0 { return ''; } let s = 'x'; while s.len() < n { s = s + s; } return s.slice(0, n); }\n"
+    for n in LONG_SIZES:
+        for pn, pe in LONG_PRODUCERS.items():
+            for qn, qe in LONG_PRODUCERS.items():
+                for equal in (True, False):
+                    P = pe.replace("%d", str(n))
+                    Q = qe.replace("%d", str(n))
+                    if not equal:
+                        Q = "(%s).slice(0, %d) + 'y'" % (Q, n - 1)
+                    src = (pre + "let p = %s;\nlet q = %s;\n" % (P, Q) +
+                           "print(p == q, p != q, p <= q, p >= q, q == p, p < q, p > q);\n"
+                           "let m = {}; m[p] = 'P'; print(m.has(q), m.get(q), m.len()); m[q] = 'Q'; print(m.len(), m[p], m[q]);\n"
+                           "print([p].has(q), [p].index(q), (p, 1).has(q), (q, p).index(p), {q: 1}.has(p));\n"
+                           "let again = %s; print(again == p, m.get(again), p.len(), q.len());\nprint(p.slice(0, 3), q.slice(%d));\n" % (P, n - 3))
+                    t, t2 = "x" * n, "x" * (n - 1) + "y"
+                    exp = expected(t, t2, equal).rsplit("\n", 2)[0] + "\nxxx %s\n" % ((t if equal else t2)[n - 3:])
+                    out.append({"p": pn, "q": qn, "t": "x*%d" % n, "equal": equal, "prefix": False, "light": True, "nopoints": True,
+                                "files": {"/v/main.lay": src, "/v/consts.lay": "export let KA = 'a';\nexport let KB = 'b';\n"}, "expected": exp})
+    return out
+
+
 def build_programs(tier):
-    progs = special_programs() + name_programs()
+    progs = special_programs() + name_programs() + long_programs()
     for t, t2 in TARGETS:
         names = list(producers(t))
         light = (t != "foo")
